@@ -68,6 +68,18 @@ pub fn drive(t: &mut Tracer, tier: &str, seed: u64) {
             }
         }
     }
+    // --- point decoders with a FORCED prefix byte (02 / 03 / 04 / 06 / 07 / 00) at every length: random content almost never gets past the prefix test
+    for len in &lens {
+        if *len == 0 { continue; }
+        for pre in [0x02u8, 0x03, 0x04, 0x06, 0x07, 0x00] {
+            let mut d = rng.bytes(*len); d[0] = pre; if *len > 1 { d[1] &= 0x7f; }
+            let l = *len;
+            { let d2 = d.clone(); call(t, &mut n, "sm2.pk_new", "prefixed", l, move || e(Sm2PublicKey::new(&d2))); }
+            { let s2 = hex::encode(&d); call(t, &mut n, "sm2.pk_hex", "prefixed", l, move || e(Sm2PublicKey::from_hex_string(&s2))); }
+            // as C1 of a ciphertext (compressed and uncompressed framing)
+            { let (s, mut c) = (key.sk.clone(), d.clone()); c.extend(rng.bytes(40)); call(t, &mut n, "sm2.decrypt.comp", "prefixed", l + 40, move || e(s.decrypt(&c, true, Sm2Model::C1C3C2))); }
+        }
+    }
     // --- the same helpers again with DEcreasing lengths, and SM9 operations for identities of decreasing length: all calls share one worker
     //     thread, so state kept per thread (scratch buffers sized by an earlier, longer input) is carried into the shorter call ---
     for len in lens.iter().rev().step_by(if thorough { 1 } else { 3 }) {
@@ -148,6 +160,8 @@ pub fn drive(t: &mut Tracer, tier: &str, seed: u64) {
             { let (k, d) = (dk, ct9[..i].to_vec()); call(t, &mut n, "sm9.decrypt", "truncated", i, move || e(k.decrypt(b"bob", &d))); }
             if i % step == 0 { let (k, d) = (dk, mutate(&ct9, i, &mut rng)); let l = d.len(); call(t, &mut n, "sm9.decrypt", "corrupted", l, move || e(k.decrypt(b"bob", &d))); }
         }
+        // C1 || C3 with an EMPTY C2 and the C3 that matches it (the encryption of the empty message): 97 bytes, must be refused
+        { let (m, k) = (msk, dk); call(t, &mut n, "sm9.decrypt", "empty-c2-valid-mac", 97, move || { let c = m.encrypt(b"bob", b""); if c.len() != 97 { return Err("length".into()); } e(k.decrypt(b"bob", &c)) }); }
         let tails: Vec<usize> = if thorough { (0..=40).chain(250..=300).chain([511, 512, 1000, 4096]).collect() } else { vec![0, 1, 31, 32, 33, 254 + 32, 255 + 32, 256 + 32, 257 + 32, 300 + 32, 1000] };
         for tl in tails {
             let mut d = ct9[..65].to_vec(); d.extend(rng.bytes(tl)); let k = dk; let l = d.len();
